@@ -310,25 +310,25 @@ LEVEL_TEXT_ADDENDA = {
            "semantically over (count, n, size). A constraint acts through its own assertion list, not through a side effect on another element (R-EFFECT-ONLY: the two buffer accesses are recorded findings).",
     "C11": " Also: the stored busy pair is tied to the task span with delay-in / early-out (R-BUSY-BIND), every task end is "
            "asserted <= the horizon variable (R-HORIZON), an unscheduled optional task has start, end and duration pinned to its "
-           "negative point (R-SET-ASSERTIONS). The part of a unit worker's name before the marker is the cumulative worker's own name, unchanged (R-MARKER). Every task class asserts start >= 0 on every parameter combination (R-TASK-OBLIG): the reporters' `busy >= 0` test means 'assigned' only then. R-REPORT-READONLY (see C09); a horizon the problem constructor computes itself is asserted and an integer (R-HORIZON). The calendar end is problem start + end * step for unscheduled tasks too (R-CALENDAR, exact).",
+           "negative point (R-SET-ASSERTIONS). The part of a unit worker's name before the marker is the cumulative worker's own name, unchanged (R-MARKER). Every task class asserts start >= 0 on every parameter combination (R-TASK-OBLIG): the reporters' `busy >= 0` test means 'assigned' only then. R-REPORT-READONLY (see C09); a horizon the problem constructor computes itself is asserted and an integer (R-HORIZON). The calendar end is problem start + end * step for unscheduled tasks too (R-CALENDAR, exact). R-BASE-STORE (see C01): the binding of a busy interval reaches the solver only if the store keeps it.",
     "C12": " Also: answering methods assert only inside pushed scopes and pop them all (R-SCOPED-ASSERT, R-PUSH-POP), an "
            "unscheduled task has one representation (R-SET-ASSERTIONS), verdicts are fresh (R-CHECK-FRESH), and nothing beyond the "
            "documented groups is asserted at initialisation (R-STREAM-EXACT). Every task's own obligations are asserted on every parameter combination (R-TASK-OBLIG): the enumeration walks exactly the valid timings. The rules R-STREAM-EXACT hands the groups of initialize() to are run in this check as well (R-DRAIN, R-HORIZON, R-WORK-AMOUNT, R-PAIRWISE, R-BUF-ENCODING, R-WEIGHTED). The exclusion added by find_another_solution_for_variable holds for the request only (R-VAR-SCOPE: recorded finding).",
     "C13": " Also: R-SCOPED-ASSERT, the blocking clause (R-BLOCK-CLAUSE), a fresh solver handle on every initialize() "
-           "(R-OPT-WIRING) and fresh verdicts (R-CHECK-FRESH). Solver methods do not modify the problem's registries in place (R-SOLVER-READONLY: pop / clear / update / ...). export_to_smt2 calls nothing but the serialiser on the solver handle (R-SMT-SAME-HANDLE).",
+           "(R-OPT-WIRING) and fresh verdicts (R-CHECK-FRESH). Solver methods do not modify the problem's registries in place (R-SOLVER-READONLY: pop / clear / update / ...). export_to_smt2 calls nothing but the serialiser on the solver handle (R-SMT-SAME-HANDLE). R-ARG-READONLY (see C01).",
     "C14": " Also: no accumulator is read inside the loop that fills it (R-ORDER-PREFIX); no process-wide state: module-level "
            "objects built by a call and used in functions, class attributes written at run time, `global` statements "
-           "(R-NO-MODULE-STATE). The sorting network of the concurrent buffer, a position-dependent helper, is a complete sort (R-SORT-NET). Nothing in the encoding phase is ordered by name (R-NAME-ORDER: sorted / min / max / .sort over registry keys or items, .name, key functions reading .name). No time of a possibly unscheduled task is read without the scheduled guard - it is -task_number, the declaration rank (R-SCHED-GUARD; its recorded findings are findings of this property too). Every constant name carries a literal tag of its kind.",
+           "(R-NO-MODULE-STATE). The sorting network of the concurrent buffer, a position-dependent helper, is a complete sort (R-SORT-NET). Nothing in the encoding phase is ordered by name (R-NAME-ORDER: sorted / min / max / .sort over registry keys or items, .name, key functions reading .name). No time of a possibly unscheduled task is read without the scheduled guard - it is -task_number, the declaration rank (R-SCHED-GUARD; its recorded findings are findings of this property too). Every constant name carries a literal tag of its kind. R-BASE-STORE: the duplicate test of the assertion store compares name-dependent hashes and must refuse loudly, never drop.",
     "C15": " Also: R-OBJ-HANDED (see C07). R-BOUND-PROVENANCE (see C07). R-WEIGHTED decides the whole assertion stream of build_equivalent_weighted_objective (an extra assertion there exists only in the configurations that build the weighted objective). A bound an indicator gives itself is one of those that follow from a definition (table: utilisation (0, 100)). R-BOUND-ASSERTED (see C07).",
     "C16": " Also: only `indent` and the exclusion of `problem` may be passed to the JSON dump; the exported SMT-LIB stack is the "
-           "problem only if nothing is left on it (R-PUSH-POP, R-SCOPED-ASSERT). add_from_json hands the whole document unchanged to the validator of the class its type entry names (R-JSON-READ). No custom serializer, computed field, dump override or excluded field in the MRO of the task and cost function classes (R-JSON-FIELDS); every free name read in excel_io / solution / base / problem is bound (R-NAMES-RESOLVE). Distinct constants have distinct, kind-tagged names (R-NAME-INJECTIVE: the SMT-LIB text parses only then); R-REPORT-READONLY for the Excel exporter. The tracked (debug) configuration of the export is decided apart (R-SMT-TRACKED: one recorded finding - the labels of assert_and_track are left free in the exported text). A coloured Excel cell gets `#` + exactly six digits for every text (R-EXCEL-COLOR).",
+           "problem only if nothing is left on it (R-PUSH-POP, R-SCOPED-ASSERT). add_from_json hands the whole document unchanged to the validator of the class its type entry names (R-JSON-READ). No custom serializer, computed field, dump override or excluded field in the MRO of the task and cost function classes (R-JSON-FIELDS); every free name read in excel_io / solution / base / problem is bound (R-NAMES-RESOLVE). Distinct constants have distinct, kind-tagged names (R-NAME-INJECTIVE: the SMT-LIB text parses only then); R-REPORT-READONLY for the Excel exporter. The tracked (debug) configuration of the export is decided apart (R-SMT-TRACKED: one recorded finding - the labels of assert_and_track are left free in the exported text). A coloured Excel cell gets `#` + exactly six digits for every text (R-EXCEL-COLOR). The CSV writer gets the frame of to_df(), the caller's separator, no index column, the caller's file name, nothing else (R-CSV-WRITE).",
     "C17": " Also: the task-view bar is (start, duration) and duration == end - start by the way build_solution extracts them "
-           "(R-EXTRACT). The renderers' `if not solution` rejection is a presence test: no class the argument can hold defines __bool__ or __len__ (R-PRESENCE-TEST). Every free name read in a function of plotter.py / solution.py is bound at module level or builtin (R-NAMES-RESOLVE, from the compiler's symbol tables). R-REPORT-READONLY; the reported horizon the renderers count periods with is an asserted integer (R-HORIZON). With a buffer sub-plot the calendar ticks are set on the Gantt axes object, not through the pyplot state machine (R-GANTT-TICKS).",
+           "(R-EXTRACT). The renderers' `if not solution` rejection is a presence test: no class the argument can hold defines __bool__ or __len__ (R-PRESENCE-TEST). Every free name read in a function of plotter.py / solution.py is bound at module level or builtin (R-NAMES-RESOLVE, from the compiler's symbol tables). R-REPORT-READONLY; the reported horizon the renderers count periods with is an asserted integer (R-HORIZON). With a buffer sub-plot the calendar ticks are set on the Gantt axes object, not through the pyplot state machine (R-GANTT-TICKS). R-CLEAN-PAIRED (see C09): the levels and times the curve is drawn from stay paired.",
     "C18": " Also: no rejection test reads the busy dict of a possibly cumulative resource itself (R-UNION-EXH on rejection tests). No constructor raises after registering the element (R-REGISTER-ATOMIC: twelve recorded findings); a constructor that sorts two lists is not refused for a single element (R-SINGLE-SORT).",
     "C19": " Also: the reader side on the extracted IR of solve(): every mapped label of the unsat core is printed, only `label in "
            "map` and a 'not already listed' test may filter (R-CORE-COMPLETE); a constraint asserts into its own list only "
            "(R-OWN-ASSERTIONS). R-EFFECT-ONLY (see C10): a constraint without assertions can never be named in a conflict.",
-    "C01": " Also: the constraint system is built lazily by the first answering call, never by the solver's constructor (R-INIT-ONCE), and a task declared under an existing name is rejected, not substituted (R-DUP-NAME).",
+    "C01": " Also: the constraint system is built lazily by the first answering call, never by the solver's constructor (R-INIT-ONCE), and a task declared under an existing name is rejected, not substituted (R-DUP-NAME). No solver method modifies in place a list it was given or read through get_z3_assertions() (R-ARG-READONLY).",
     "C02": " Also: the assignment a resource reports is the model value of the stored busy pair, listed exactly when the task lists the resource (R-VIEW-SYMMETRY); R-INIT-ONCE and R-DUP-NAME for the three resource registries as in C01. Each unit worker of a cumulative worker carries the element at its position of _distribute_p_over_n(productivity | cost, size), unchanged; that helper returns `size` elements (length lemma decided on its body). Worker, cumulative worker and selection constructors assert nothing of their own (R-OWN-EXACT). Every task class asserts start >= 0 (R-TASK-OBLIG): the reporters' `busy >= 0` test means 'assigned' only then. One worker serves one task through one requirement: the duplicate test of add_required_resource looks at what is stored (R-DUP-REQUIRED, recorded findings); parked points of tasks and of unselected workers come from one generator (R-NEG-POINT); the delayed busy interval of an unscheduled task (R-BUSY-BIND, recorded finding).",
     "C03": " Also: R-INIT-ONCE and R-DUP-NAME (constraint registry) as in C01: what is declared before solve() is what is asserted, and no declared constraint is silently replaced under its name.",
     "C04": " Also: R-INIT-ONCE and R-DUP-NAME (constraint registry) as in C01/C03. SameWorkers: equal flags for the workers both selections offer, and the others excluded on their side (specification corrected from the documentation after the defect hunt).",
